@@ -629,6 +629,11 @@ class Resource(object):
         if not obj._internal_id:
             uuid = str(uuid4())
             obj._internal_id = uuid
+            # the resource of the object resolves it by this id from now on
+            # (not only once the document has been loaded again)
+            resource = obj.eResource
+            if resource is not None:
+                resource.uuid_dict[uuid] = obj
 
     def append(self, root):
         try:
